@@ -34,6 +34,8 @@ func orderScenarios(tier string) []clustermc.Scenario {
 		{"pend-qb", []world.WL{{Queue: "qb", Pods: pods(1, shG1, "", "")}}},
 		{"pend-qb-p75+qc", []world.WL{{Queue: "qb", PC: "p75", Pods: pods(1, shG1, "", "")}, {Queue: "qc", Pods: pods(1, shG1, "", "")}}},
 		{"run-qb", []world.WL{{Queue: "qb", Pods: pods(1, shG1, world.StRunning, "n1")}}},
+		// a workload submitted to a non-leaf queue (d1 in the 2-level tree; a missing queue in the flat one)
+		{"pend-in-nonleaf-d1", []world.WL{{Queue: "d1", Pods: pods(1, shG1, "", "")}}},
 		{"run-qa-other-shape", []world.WL{{Queue: "qa", Pods: pods(1, shG1, world.StRunning, "n1")}, {Queue: "qa", PC: "p75", Pods: pods(1, shG2, "", "")}}},
 	}
 	trees := []queueSetup{
@@ -61,6 +63,8 @@ func orderScenarios(tier string) []clustermc.Scenario {
 		cfgs = append(cfgs, schedrun.Config{MapSeed: uint64(s)})
 	}
 	cfgs = append(cfgs, schedrun.Config{Signatures: true, MapSeed: 1}, schedrun.Config{Placement: "spread", MapSeed: 2})
+	// a bounded per-queue job depth for allocate (the shard option queueDepthPerAction)
+	cfgs = append(cfgs, schedrun.Config{QueueDepth: map[string]int{"allocate": 2}, MapSeed: 1}, schedrun.Config{QueueDepth: map[string]int{"allocate": 1}, MapSeed: 2})
 	for _, lay := range layouts {
 		for _, tr := range trees {
 			for _, cl := range classes {
